@@ -16,7 +16,8 @@ and of what CPython does for the same operators on `int`/`bool`/`str`/`bytes` (`
 infinite two's-complement representation (`land`/`lor`/`lxor`/`bnot`, own definitions — core has none),
 `**` = `Int.pow` for exponents ≥ 0.
 
-Floats are not modelled: a result of float type is the opaque token `Res.float` (true division of ints,
+Floats are not modelled as numbers: true division of ints yields the symbolic `Res.quot a b` (CPython's
+correctly rounded quotient of exactly these two integers — an oracle), other float results are `Res.float` (
 negative powers); float *operands* are outside the model (correspondence only).
 -/
 namespace Fold
@@ -30,9 +31,14 @@ inductive Val where
   | bytes (s : List Nat)
 deriving Repr, DecidableEq
 
-/-- result of an evaluation: a modelled value, or "some float" -/
+/-- result of an evaluation: a modelled value; `quot a b` = *the float that CPython's `int.__truediv__`
+    yields for the integers `a / b`* (the correctly rounded — one rounding, half to even — quotient of the
+    exact rational; an oracle, kept symbolic because Lean's `Float` cannot express it: the harness evaluates
+    it with the running interpreter, `a / b`, and compares the real folder's float bit for bit on every
+    generated pair); `float` = some other float (a negative power), never produced by a folder -/
 inductive Res where
   | val (v : Val)
+  | quot (a b : Int)
   | float
 deriving Repr, DecidableEq
 
@@ -118,6 +124,13 @@ def inSsize (n : Int) : Bool := decide (-9223372036854775808 ≤ n ∧ n < 92233
 def seqMul (mk : List Nat → Val) (s : List Nat) (n : Int) : PyRes :=
   if inSsize n then .ok (.val (mk (pyRepeat s n))) else .raises .overflowError
 
+/-- `a / b` on ints raises `OverflowError` ("integer division result too large for a float") exactly when
+    the rounded quotient exceeds the largest double, i.e. |a/b| ≥ 2¹⁰²⁴ − 2⁹⁷⁰ (the midpoint above DBL_MAX
+    rounds up to 2¹⁰²⁴); the constant is written out so that `decide` can evaluate small examples -/
+def trueDivBound : Nat := 179769313486231580793728971405303415079934132710037826936173778980444968292764750946649017977587207096330286416692887910946555547851940402630657488671505820681908902000708383676273854845817711531764475730270069855571366959622842914819860834936475292719074168444365510704342711559699508093042880177904174497792
+
+def divOverflows (a b : Int) : Bool := decide (a.natAbs ≥ trueDivBound * b.natAbs)
+
 /-- `int.bit_length()` -/
 def bitLength (a : Int) : Nat := if a = 0 then 0 else a.natAbs.log2 + 1
 
@@ -151,7 +164,8 @@ def pyBinInt (op : Op) (bb : Option (Bool × Bool)) (a b : Int) : PyRes :=
   | .add => .ok (.val (.int (a + b)))
   | .sub => .ok (.val (.int (a - b)))
   | .mul => .ok (.val (.int (a * b)))
-  | .truediv => if b = 0 then .raises .zeroDivision else .ok .float
+  | .truediv =>
+    if b = 0 then .raises .zeroDivision else if divOverflows a b then .raises .overflowError else .ok (.quot a b)
   | .floordiv => if b = 0 then .raises .zeroDivision else .ok (.val (.int (Int.fdiv a b)))
   | .mod => if b = 0 then .raises .zeroDivision else .ok (.val (.int (Int.fmod a b)))
   | .band =>
@@ -247,7 +261,8 @@ def foldBinInt (op : Op) (bb : Option (Bool × Bool)) (l r : Int) : Option Res :
   | .add => some (.val (.int (l + r)))
   | .sub => some (.val (.int (l - r)))
   | .mul => if intGuardOk .mul l r then some (.val (.int (l * r))) else none
-  | .truediv => if r ≠ 0 then some .float else none
+  | .truediv =>      -- `left / right` on the two ints; an OverflowError is caught by constant_fold_binary_op (8e803c7)
+    if r ≠ 0 then (if divOverflows l r then none else some (.quot l r)) else none
   | .floordiv => if r ≠ 0 then some (.val (.int (Int.fdiv l r))) else none
   | .mod => if r ≠ 0 then some (.val (.int (Int.fmod l r))) else none
   | .band =>
